@@ -11,6 +11,7 @@ import Proofs.StepToks
 import Proofs.StepValid
 import Proofs.Respects
 import Proofs.RangeOps
+import Proofs.Fitter
 import Props.C01
 namespace PM.C11
 open PM
@@ -243,5 +244,67 @@ example :
     deleteRangeTarget S doc 2 3 = some (2, 3) ∧
     fitsTrivially S doc 2 2 ⟨[.text [120] []], 0, 0⟩ = some true ∧
     fitsTrivially S doc 1 3 Slice.empty = some false := by decide
+
+/-! ## The Fitter (model PM/Fitter.lean, tied exactly on the emitted step)
+
+`replaceStep` is `replace_step(doc, from, to, slice)` with the `Fitter` as an executable state
+machine (fuel for the `while` loop; `.error` = the code raises / the fuel ran out; `.ok none` =
+`None`).  The theorems below speak about every step it emits. -/
+
+/-- **`fit_range`**: the step `replace_step` emits starts at the requested `from`.  A replace step
+    ends at `T ≥ to`; a replace-around step keeps the gap `[to, G2)` and ends at `T > G2`.  Whatever
+    lies between the requested end (resp. the end of the gap) and `T` is close tokens only, and `T`
+    is inside the document: the Fitter only ever extends the range over closing structure. -/
+theorem fit_range (S : Schema) (doc : Node) (f t : Nat) (sl : Slice) (st : Step)
+    (h : replaceStep S doc f t sl = .ok (some st)) :
+    (∃ T sl', st = .replace f T sl' false ∧ t ≤ T ∧ T ≤ fsize doc.kids ∧
+      ∀ i, t ≤ i → i < T → (ftoks doc.kids)[i]? = some Tok.cl) ∨
+    (∃ T G2 sl' ins, st = .replaceAround f T t G2 sl' ins false ∧ t ≤ G2 ∧ G2 < T ∧
+      T ≤ fsize doc.kids ∧ ∀ i, G2 ≤ i → i < T → (ftoks doc.kids)[i]? = some Tok.cl) := by
+  unfold replaceStep at h
+  split at h
+  · simp [pure, Except.pure] at h
+  · split at h
+    · rename_i rf rt hf ht
+      split at h
+      · simp [throw, throwThe, MonadExceptOf.throw] at h
+      · have := pure_ok h
+        simp only [Option.some.injEq] at this
+        subst this
+        exact .inl ⟨t, sl, rfl, Nat.le_refl _, (resolve_resolved ht).le, fun i h1 h2 => by omega⟩
+      · exact fitterFit_range S hf ht sl _ st h
+    · simp [throw, throwThe, MonadExceptOf.throw] at h
+
+/-- … in the vocabulary of the monitor: the *range half* of `respects` holds for every step the
+    Fitter emits (for `f ≤ t`): ordering, bounds and the structural windows.  What remains
+    monitored is the text half (the inserted text is a subsequence of the requested text, nothing
+    after the gap is text). -/
+theorem fit_range_monitor (S : Schema) (doc : Node) (f t : Nat) (sl : Slice) (st : Step) (hft : f ≤ t)
+    (h : replaceStep S doc f t sl = .ok (some st)) :
+    match st with
+    | .replace F T _ _ =>
+      F ≤ T ∧ T ≤ (ftoks doc.kids).length ∧
+      structuralOnly (between (ftoks doc.kids) F f) = true ∧
+      structuralOnly (between (ftoks doc.kids) t T) = true ∧ min F f ≤ min t T
+    | .replaceAround F T G1 G2 _ _ _ =>
+      F ≤ G1 ∧ G1 ≤ G2 ∧ G2 ≤ T ∧ T ≤ (ftoks doc.kids).length ∧ t ≤ G1 ∧
+      structuralOnly (between (ftoks doc.kids) F f) = true ∧
+      structuralOnly (between (ftoks doc.kids) t G1) = true ∧
+      structuralOnly (between (ftoks doc.kids) G2 T) = true ∧ min F f ≤ t
+    | _ => False := by
+  have cls : ∀ a b, a ≤ b → (∀ i, a ≤ i → i < b → (ftoks doc.kids)[i]? = some Tok.cl) →
+      structuralOnly (between (ftoks doc.kids) a b) = true := by
+    intro a b hab hc
+    exact structuralOnly_between_of _ _ _ hab fun i h1 h2 tk htk => by
+      rw [hc i h1 h2] at htk; cases htk; rfl
+  have nil : ∀ a, structuralOnly (between (ftoks doc.kids) a a) = true := by
+    intro a; simp [between, structuralOnly]
+  rcases fit_range S doc f t sl st h with ⟨T, sl', rfl, h1, h2, h3⟩ | ⟨T, G2, sl', ins, rfl, h1, h2, h3, h4⟩
+  · simp only
+    rw [ftoks_length]
+    exact ⟨by omega, h2, nil f, cls t T h1 h3, by omega⟩
+  · simp only
+    rw [ftoks_length]
+    exact ⟨hft, h1, by omega, h3, Nat.le_refl _, nil f, nil t, cls G2 T (by omega) h4, by omega⟩
 
 end PM.C11
